@@ -760,10 +760,13 @@ pub fn write_substore_docs(sub: &std::path::Path, i: usize) -> std::path::PathBu
     // (the root document names its sub-stores before its own items, or - every fourth case - after them: the root's own
     // items then have the lower handles)
     let include_last = i % 4 == 3;
-    let doc = |id: Option<&str>, includes: &[String], tag: &str| { let inc = if includes.is_empty() { String::new() } else { format!(", \"@include\": [{}]", includes.iter().map(|x| format!("\"{}\"", x)).collect::<Vec<_>>().join(", ")) }; format!("{{\"@type\": \"AnnotationStore\"{}{}, \"resources\": [{{\"@type\": \"TextResource\", \"@id\": \"{}\", \"text\": \"hello w\u{f6}rld {}\"}}], \"annotationsets\": [{{\"@type\": \"AnnotationDataSet\", \"@id\": \"set-{}\", \"keys\": [{{\"@type\": \"DataKey\", \"@id\": \"k\"}}], \"data\": []}}], \"annotations\": [{}, {}]{}}}",
+    let doc = |id: Option<&str>, includes: &[String], tag: &str| { let inc = if includes.is_empty() { String::new() } else { format!(", \"@include\": [{}]", includes.iter().map(|x| format!("\"{}\"", x)).collect::<Vec<_>>().join(", ")) }; format!("{{\"@type\": \"AnnotationStore\"{}{}, \"resources\": [{{\"@type\": \"TextResource\", \"@id\": \"{}\", \"text\": \"hello w\u{f6}rld {}\"}}], \"annotationsets\": [{{\"@type\": \"AnnotationDataSet\", \"@id\": \"set-{}\", \"keys\": [{{\"@type\": \"DataKey\", \"@id\": \"k\"}}], \"data\": []}}{}], \"annotations\": [{}, {}]{}}}",
         id.map(|x| format!(", \"@id\": \"{}\"", x)).unwrap_or_default(),
         if include_last { String::new() } else { inc.clone() },
-        tag, tag, tag, ann(&format!("{}-a0", tag), tag, 0, 5, "x"), ann(&format!("{}-a1", tag), tag, 6, 11, "y"), if include_last { inc } else { String::new() }) };
+        tag, tag, tag,
+        // (two sub-stores: both declare one more dataset, the same one: a vocabulary shared by the sub-stores)
+        if nsub == 2 && tag != "root" { ", {\"@type\": \"AnnotationDataSet\", \"@id\": \"set-shared\", \"keys\": [{\"@type\": \"DataKey\", \"@id\": \"lang\"}], \"data\": [{\"@type\": \"AnnotationData\", \"@id\": \"L1\", \"key\": \"lang\", \"value\": {\"@type\": \"String\", \"value\": \"sv\"}}]}" } else { "" },
+        ann(&format!("{}-a0", tag), tag, 0, 5, "x"), ann(&format!("{}-a1", tag), tag, 6, 11, "y"), if include_last { inc } else { String::new() }) };
     let subnames: Vec<String> = (0..nsub).map(|k| format!("sub{}.store.stam.json", k)).collect();
     for (k, n) in subnames.iter().enumerate() {
         let sid = format!("the-substore-{}", k);
@@ -1051,7 +1054,7 @@ fn check_substores(rep: &mut Report, dir: &std::path::Path, i: usize) {
         for ss in st.substores() { v.push(format!("substore id {:?} with {} annotations", ss.id(), ss.as_ref().annotations_len())); }
         for a in st.annotations() { v.push(format!("annotation {:?} in substore {:?} text {:?}", a.id(), a.substore().map(|x| x.id().map(|y| y.to_string())), a.text_join("|"))); }
         for r in st.resources() { v.push(format!("resource {:?}", r.id())); }
-        for d in st.datasets() { v.push(format!("dataset {:?} keys {}", d.id(), d.keys().count())); }
+        for d in st.datasets() { v.push(format!("dataset {:?} keys {} data {} in sub-stores {:?}", d.id(), d.keys().count(), d.data().count(), { let mut m: Vec<String> = d.substores().map(|x| x.id().map(|y| y.to_string()).unwrap_or_else(|| format!("#{}", x.handle().as_usize()))).collect(); m.sort(); m })); }
         v
     };
     let want_ids: Vec<String> = std::iter::once(format!("root id {:?}", if root_has_id { Some("the-root") } else { None })).chain((0..nsub).map(|k| format!("substore id {:?} with 2 annotations", if sub_has_id { Some(format!("the-substore-{}", k)) } else { None }))).collect();
@@ -1059,6 +1062,12 @@ fn check_substores(rep: &mut Report, dir: &std::path::Path, i: usize) {
     let st1 = match load(&p) { Ok(Ok(s)) => s, Ok(Err(e)) => { rep.fail("oracle", "C05/substores/load-fails", ctx, "the store loads", &format!("{}", e)); std::fs::remove_dir_all(&sub).ok(); return; } Err(m) => { rep.fail("panic", "C05/substores/load-panics", ctx, "the store loads", &m); std::fs::remove_dir_all(&sub).ok(); return; } };
     let d1 = describe(&st1);
     if sub_has_id && d1[..want_ids.len()] != want_ids[..] { rep.fail("oracle", "C05/substores/identifiers-differ-from-the-documents", ctx.clone(), &format!("{:?}", want_ids), &format!("{:?}", &d1[..want_ids.len().min(d1.len())])); }
+    // a dataset that two sub-store documents declare belongs to both sub-stores
+    if nsub == 2 {
+        rep.count("json:substores:dataset-shared-by-two");
+        let members = guarded(std::panic::AssertUnwindSafe(|| st1.dataset("set-shared").map(|d| d.substores().count())));
+        if members != Ok(Some(2)) { rep.fail("oracle", "C05/substores/shared-dataset-membership", ctx.clone(), "the dataset set-shared, declared by both sub-store documents, belongs to 2 sub-stores", &format!("{:?}", members)); }
+    }
     // a sub-store is found by the identifier it carries
     for ss in st1.substores() {
         if let Some(id) = ss.id() {
